@@ -103,7 +103,7 @@ class contentsSet(GenericEquality):
         if fs.isfs_obj(obj):
             self._dict.pop(obj.location, None)
         else:
-            self._dict.pop(obj, None)
+            self._dict.pop(normpath(obj), None)
 
     def __getitem__(self, obj):
         if fs.isfs_obj(obj):
